@@ -8,7 +8,7 @@ Open Scope N_scope.
 (* ------------------------------------------------------------------ automation *)
 
 Ltac ext_unfold :=
-  unfold c_opaque, c_opaque1, w_check, c_check, c_raw_ext, c_oid_filter, c_ks_entry,
+  unfold c_opaque, c_opaque1, w_check, c_check, c_raw_ext, c_oid_filter, c_ks_entry, c_sni_entry,
     c_psk_identity, c_psk_binder, w_ks_entries in *.
 
 Ltac ext_step :=
@@ -89,6 +89,69 @@ Theorem connection_id_ok : ext_ok w_connection_id.
 Proof. apply ext_ok_intro; unfold w_connection_id; ext_auto. Qed.
 Theorem connection_id_trunc : wtrunc w_connection_id.
 Proof. unfold w_connection_id; ext_auto. Qed.
+
+(* ------------------------------------------------------------------ server_name (lossy) *)
+
+Lemma sni_list_sound : wsound w_sni_list. Proof. unfold w_sni_list; ext_auto. Qed.
+Lemma sni_list_decok : wdec_ok w_sni_list. Proof. unfold w_sni_list; ext_auto. Qed.
+Lemma sni_list_trunc : wtrunc w_sni_list. Proof. unfold w_sni_list; ext_auto. Qed.
+
+(* an element of an encodable list encodes to no more than the whole list *)
+Lemma list_enc_member {A} (c : codec A) l e x : list_enc c l = Some e -> In x l ->
+  exists ex, enc c x = Some ex /\ (length ex <= length e)%nat.
+Proof.
+  revert e. induction l as [|a l IH]; intros e He Hin; [destruct Hin|].
+  cbn [list_enc] in He. destruct (enc c a) as [ea|] eqn:Ea; [|discriminate].
+  destruct (list_enc c l) as [es|] eqn:Es; [|discriminate]. inversion He; subst e; clear He.
+  destruct Hin as [->|Hin].
+  - exists ea. split; [exact Ea|]. rewrite app_length. lia.
+  - destruct (IH es eq_refl Hin) as [ex [Ex Lx]]. exists ex. split; [exact Ex|]. rewrite app_length. lia.
+Qed.
+
+Lemma host_names_in l n : In n (host_names l) -> In (0, n) l.
+Proof.
+  unfold host_names. intro H. apply in_map_iff in H. destruct H as [[t m] [Hm Hf]]. cbn [snd] in Hm. subst m.
+  apply filter_In in Hf. destruct Hf as [Hin Ht]. cbn [fst] in Ht. apply N.eqb_eq in Ht. subst t. exact Hin.
+Qed.
+
+Theorem sni_ok_ : ext_ok w_sni.
+Proof.
+  apply ext_ok_intro; unfold w_sni.
+  - apply wsound_map; [|apply wsound_guard, sni_list_sound]. intros y _ _. reflexivity.
+  - apply wdecok_map; [|apply wdecok_guard; [reflexivity|apply sni_list_decok]].
+    intros l e W E. unfold w_guard in W, E; cbn [wwf wenc] in W, E.
+    apply andb_prop in W. destruct W as [W Hok]. apply andb_prop in W. destruct W as [W _].
+    unfold sni_ok in Hok. destruct (host_names l) as [|n [|n2 r]] eqn:Hn; try discriminate.
+    cbn [hd]. assert (Hin : In (0, n) l) by (apply host_names_in; rewrite Hn; left; reflexivity).
+    (* facts about l from its well-formedness *)
+    unfold w_sni_list, w_exact, c_vec, w_check, w_guard in W, E; cbn [wwf wenc wf enc w_list] in W, E.
+    apply andb_prop in W. destruct W as [W Hlen]. apply andb_prop in W. destruct W as [W Hnn].
+    apply andb_prop in W. destruct W as [Wl _]. rewrite Hnn in Hlen, E.
+    destruct (list_enc c_sni_entry l) as [el|] eqn:El; [|discriminate].
+    rewrite Hlen in E. inversion E; subst e; clear E. rename Hlen into Hlt.
+    destruct (list_enc_member c_sni_entry l el (0, n) El Hin) as [ex [Ex Lx]].
+    assert (Wn : wf c_sni_entry (0, n) = true).
+    { apply (proj1 (forallb_forall _ _) Wl). exact Hin. }
+    assert (Hnn' : nonnil n = true).
+    { pose proof Wn as Wn2.
+      unfold c_sni_entry, c_seq, c_bind, c_opaque1, c_vec, w_check, w_guard, w_rest in Wn2; cbn [wf wwf fst snd] in Wn2.
+      apply andb_prop in Wn2. destruct Wn2 as [_ Wn2]. apply andb_prop in Wn2. destruct Wn2 as [Wn2 _].
+      apply andb_prop in Wn2. destruct Wn2 as [Wn2 _]. apply andb_prop in Wn2. destruct Wn2 as [_ Wn2]. exact Wn2. }
+    rewrite Hnn', Hok. split; [reflexivity|].
+    unfold w_guard, w_sni_list, w_exact, c_vec, w_check, w_guard; cbn [wwf wenc wf enc w_list list_enc forallb].
+    unfold bytes in *. rewrite Wn, Ex. unfold sni_ok, host_names; cbn [filter fst snd N.eqb map]. rewrite Hok.
+    rewrite app_nil_r. cbn [nonnil andb].
+    assert (Hlx : len ex <? 256 ^ N.of_nat 2 = true).
+    { apply N.ltb_lt. apply N.ltb_lt in Hlt. unfold len in *. lia. }
+    rewrite Hlx. split; [reflexivity|]. eexists. split; [reflexivity|].
+    rewrite app_length, be_enc_length. cbn [length]. lia.
+Qed.
+Theorem sni_trunc : wtrunc w_sni.
+Proof. unfold w_sni. apply wtrunc_map, wtrunc_guard, sni_list_trunc. Qed.
+(* lossy: a second entry of another name type is dropped *)
+Example sni_lossy :
+  wdec w_sni [0; 8; 0; 0; 1; 97; 7; 0; 1; 98] = Some [97] /\ wenc w_sni [97] = Some [0; 4; 0; 0; 1; 97].
+Proof. vm_compute. split; reflexivity. Qed.
 
 Lemma alpn_list_sound : wsound w_alpn_list. Proof. unfold w_alpn_list; ext_auto. Qed.
 Lemma alpn_list_decok : wdec_ok w_alpn_list. Proof. unfold w_alpn_list; ext_auto. Qed.
